@@ -592,6 +592,27 @@ func ruleSnapshot(r *Run) {
 			}
 		}
 	}
+	// a pose update is applied only when it carries a pose (C11: "carries no pose is dropped without any effect")
+	setPose := r.P.LookupFunc(pkgModels, "Entity", "SetPose")
+	for _, h := range m.Handlers {
+		if cname(h.Const) != "MSG_TYPE_ENTITY_UPDATE_POSE" || h.ReqVar == nil {
+			continue
+		}
+		nSet := 0
+		for _, path := range r.Paths(h.Fn) {
+			i := idxOfCall(&path, setPose, 0)
+			if i < 0 {
+				continue
+			}
+			nSet++
+			g := r.guardMap(&Path{Fn: h.Fn, Events: path.Events[:i]})
+			want := "var:" + h.ReqVar.Name() + ".Pose"
+			has := g["nil:"+want] == "nonnil" || g["zero:"+want] == "nonzero"
+			r.CheckT("C11-pose", h.Fn.Name+":applied-only-with-pose", has, path.Events[i].Pos, &path,
+				"a pose is stored (and relayed) on a path that never established that the update carries one: an update without pose overwrites the entity's pose with zeros instead of being dropped")
+		}
+		r.Check("C11-pose", h.Fn.Name+":has-apply-path", nSet >= 1, h.Fn.Body.Pos(), "the pose handler has an applying path")
+	}
 	// module snapshots
 	for _, mi := range m.Modules {
 		var jf *Func
